@@ -141,9 +141,7 @@ def extras(draw, W):
             spec = OPTS[p]
             gi = draw(st.integers(0, len(spec["good"]) - 1))
             use_var = bool(spec.get("var")) and spec["good"][gi] is not None and draw(st.integers(0, 2)) == 0
-            # variable-valued typed options are only placed in the component itself: inside `override.<platform>`
-            # the resolved value stays a string and the loader rejects the (valid looking) document
-            where = "over" if (plat and not use_var and draw(st.integers(0, 3)) == 0) else "base"
+            where = "over" if (plat and draw(st.integers(0, 3)) == 0) else "base"
             opts.append({"o": list(p), "g": gi, "var": layers() if use_var else None, "w": where})
         nargs = draw(st.integers(0, 2)) if draw(st.booleans()) else 0
         argvars = [{"layers": layers(), "val": draw(st.sampled_from(["w", 7, "x-y", 0.5])),
